@@ -385,8 +385,8 @@ func (r *runner) hStat(name, what string) {
 //           (C) 3 representative prefixes × every mutation form along assignment (one also along the by-value
 //               parameter and on a nested shape), both sides,
 //           (D) a seeded sample of the rest.
-// thorough: every (prefix × route × placement × side) under 3 mutation forms on list and nested shapes; every
-//           (prefix × mutation form × side) along assignment on 5 shapes; a larger sample.
+// thorough: every (prefix × route) pair under 3 mutation forms on list and nested shapes, both placements, both
+//           sides; every (prefix × mutation form × side) along assignment on 3 shapes; a larger sample.
 func (r *runner) hEnumerate(full bool, rnd *vh.Rand, sample int) int {
 	have := r.plProbeOnce()
 	n := 0
@@ -468,6 +468,9 @@ func (r *runner) hEnumerate(full bool, rnd *vh.Rand, sample int) int {
 			if full {
 				for _, place := range places {
 					for _, side := range sides {
+						if place == "direct" && side == "orig" {
+							continue
+						}
 						for _, mn := range []string{"cat", "append", "store"} {
 							for _, sn := range []string{"list", "nest"} {
 								if mn == "store" && sn == "list" {
@@ -494,7 +497,7 @@ func (r *runner) hEnumerate(full bool, rnd *vh.Rand, sample int) int {
 			continue
 		}
 		for _, m := range pMuts {
-			for _, sn := range []string{"list", "nest", "keyed", "kvlist", "nestk"} {
+			for _, sn := range []string{"list", "nest", "keyed"} {
 				for _, rn := range []string{"assign", "param"} {
 					if rn != "assign" && (!isRep || (!full && h.Name != "fnSet")) {
 						continue
